@@ -102,6 +102,7 @@ type Event struct {
 	Partial  bool   // REP: loop left early in the iteration that follows
 	LoopID   int
 	Bounded  string // REP: how the trip count is bounded ("counted", "range", "" = unrecognised)
+	Inv      *Val   // REP: a relation that holds at the start of every iteration (counter within its bound), or nil
 	Deferred bool
 }
 
